@@ -409,10 +409,14 @@ def directed_history(rng):
     targets = [("set_index", None), ("sort", None), ("set_index_then", None), ("sort_head", None)]
     for q, v in targets:
         steps.append({"op": "optimize", "q": q, "v": v, "fuse": (q != "set_index_then")})
-    others = [it for it in sorts if it not in targets]
-    rng.shuffle(others)
-    for q, v in others[:14]:
+    fillers = [("sort_k", v) for v in [None] + list(range(len(sp.POOL["sort_k"][2])))]  # 16 pairwise different keys
+    rng.shuffle(fillers)
+    for q, v in fillers[:12]:
         observe(q, v, what=["result", "divisions"])
+    others = [it for it in sorts if it not in targets and it[0] != "sort_k"]
+    rng.shuffle(others)
+    for q, v in others[:4]:
+        observe(q, v, what=["divisions", "result"])
     for q, v in targets:
         observe(q, v, via="handle", what=["result", "divisions", "len"])
         observe(q, v)
@@ -685,7 +689,9 @@ def support(ctx, broken):
             if si % 2 == 1 or broken:
                 # a session concentrated on the cache-relevant queries (sorts, parquet, memory-usage repartition)
                 pool_items = [it for it in items if _tag_groups(it[0])] * 3 + items
-            steps = directed_history(rng) if si == 0 else make_history(rng, n_steps, pool_items, rewrites=2)
+            import random
+
+            steps = directed_history(random.Random(ctx.seed)) if si == 0 else make_history(rng, n_steps, pool_items, rewrites=2)
             res = _run_session(steps, pq_root)
             sup.executed += res["observations"]
             sup.distribution[f"session{si}:observations"] = res["observations"]
